@@ -1299,3 +1299,43 @@ def r97(ctx: Ctx) -> RuleReport:
             else:
                 rep.ok(key, fi.loc(t))
     return rep
+
+
+# ---------------------------------------------------------------------------------------------
+@rule('R108', 'in configure, what _find_next passed over is kept for a later round on every path (no pending triple is dropped)')
+def r108(ctx: Ctx) -> RuleReport:
+    rep = RuleReport('R108', r108.title, floor=1)
+    fi = ctx.repo.func(L, 'configure')
+    cfg = CFG(fi.node)
+    pm = ctx.repo.parent_map(fi.node)
+    unp = [n for n in walk_local(fi.node) if isinstance(n, ast.Assign) and isinstance(n.targets[0], ast.Tuple) and len(n.targets[0].elts) == 3
+           and isinstance(n.value, ast.Call) and norm(n.value.func).endswith('_find_next')]
+    if len(unp) != 1 or not isinstance(unp[0].targets[0].elts[0], ast.Name):
+        rep.undecided(f'{fi.fq}: `passed_over, var, data = _find_next(data, nodemap)`', fi.loc(), f'{len(unp)} such statements')
+        return rep
+    a = unp[0]
+    S = a.targets[0].elts[0].id
+    loop = next((x for x in _ancestors(pm, a) if isinstance(x, (ast.While, ast.For))), None)
+    if loop is None:
+        rep.undecided(f'{fi.fq}: _find_next is called in the improvisation loop', fi.loc(a))
+        return rep
+    head = cfg.node_of(loop)
+    uses = set()
+    for x in ast.walk(loop):
+        if isinstance(x, ast.Name) and x.id == S and isinstance(x.ctx, ast.Load):
+            try:
+                uses.add(owner_node(cfg, pm, x))
+            except Exception:
+                pass
+    key = f'{fi.fq}: `{S}` (the data _find_next passed over) is put back before the next round'
+    if not uses:
+        rep.violation(key, fi.loc(a), f'`{S}` is never read: every datum that _find_next skips is lost, the triples are missing from the encoded text')
+        return rep
+    raises = {nd.id for nd in cfg.nodes if nd.kind == 'stmt' and isinstance(nd.ast, ast.Raise)}
+    path = cfg.path_avoiding([(cfg.node_of(a), None)], {head}, lambda nd: nd.id in uses or nd.id in raises)
+    if path:
+        rep.violation(key, fi.loc(a), f'the loop can start its next round without `{S}` having been used ({" -> ".join(repr(cfg.nodes[x]) for x in path[-4:])[:170]}): on that path the data that were '
+                      f'passed over are dropped - a triple (for instance the instance triple of a node) silently disappears from the encoded graph')
+    else:
+        rep.ok(key, fi.loc(a), f'used at {len(uses)} place(s), on every path back to the loop head')
+    return rep
